@@ -26,7 +26,7 @@ EXEMPT_WRITERS = {'MerkleCache.__init__': 'construction', 'MerkleCache.truncate'
                   'MerkleCache.initialize': 'reads data that cannot be orphaned (see ASSUMPTIONS)'}
 
 
-def rule_truncate(ctx):
+def rule_truncate(ctx, rule='C11.TRUNCATE'):
     n = 0
     f = ctx.func('db', 'DB.backup_fs')
     cfg = ctx.cfg(f)
@@ -42,7 +42,7 @@ def rule_truncate(ctx):
         ok = small and p is None
         why = f'truncate({norm(calls[0].args[0])}) ' + ('keeps more than height + 1 hashes' if not small else 'is skipped on some path')
         wit = cfg.describe_path(p) if p else None
-    ctx.check(ok, 'C11.TRUNCATE', ctx.key(f, None, 'header cache truncated'),
+    ctx.check(ok, rule, ctx.key(f, None, 'header cache truncated'),
               'backup_fs truncates the header merkle cache to at most height + 1 hashes on every path',
               why + ': hashes of orphaned blocks stay in the cache and later header proofs fold to the abandoned chain',
               witness=wit, loc=ctx.loc(f, f.node))
@@ -52,7 +52,7 @@ def rule_truncate(ctx):
     cs = q.calls_resolving_to(ctx, fb, f)
     ok = len(cs) == 1 and norm(cs[0].args[0]) == 'flush_data.state.height' and \
         pr.path_avoiding(fcfg, [fcfg.entry], [fcfg.exit], {fcfg.node(q.stmt(cs[0]))}) is None
-    ctx.check(ok, 'C11.TRUNCATE', ctx.key(fb, None, 'backup_fs on every backup flush'),
+    ctx.check(ok, rule, ctx.key(fb, None, 'backup_fs on every backup flush'),
               'every backup flush calls backup_fs with the new (lower) height',
               'a backup flush can complete without backup_fs(new height): the header cache is not truncated', loc=ctx.loc(fb, fb.node))
     return n + 1
@@ -188,19 +188,19 @@ def rule_range(ctx):
     return n
 
 
-def rule_cachefill(ctx):
+def rule_cachefill(ctx, rule='C11.CACHES'):
     '''_merkle_cache / _tx_hashes_cache are filled only from validated reads (no unvalidated suspension before the store,
     nor between the validated read and _merkle_branch in its callers).'''
     fr = Fresh(ctx, c10.EPOCHS)
     from .fresh import rule_fill
-    n = rule_fill(ctx, fr, ctx.func('sess', 'SessionManager.tx_hashes_at_blockheight'), 'self._tx_hashes_cache', 'C11.CACHES')
+    n = rule_fill(ctx, fr, ctx.func('sess', 'SessionManager.tx_hashes_at_blockheight'), 'self._tx_hashes_cache', rule)
     mb = ctx.func('sess', 'SessionManager._merkle_branch')
-    n += rule_fill(ctx, fr, mb, 'self._merkle_cache', 'C11.CACHES')
+    n += rule_fill(ctx, fr, mb, 'self._merkle_cache', rule)
     for caller, _callee, kind, node in ctx.cg.callers(mb):
         s = q.stmt(node)
         bad = fr.unvalidated_before(caller, s)
         cfg = ctx.cfg(caller)
-        ctx.check(not bad, 'C11.CACHES', ctx.key(caller, s, 'fresh tx hashes'),
+        ctx.check(not bad, rule, ctx.key(caller, s, 'fresh tx hashes'),
                   'the tx hashes handed to _merkle_branch were validated after the last suspension',
                   'tx hashes reach _merkle_branch (and its per-height cache) across an unvalidated suspension: '
                   + '; '.join(f'{cfg.label(x)}: {r}' for x, r in bad[:2]), loc=ctx.loc(caller, s))
